@@ -8,8 +8,10 @@
 #include <unistd.h>
 #include <errno.h>
 #include <algorithm>
+#include <execinfo.h>
 
 extern "C" void __sanitizer_print_stack_trace(void);
+extern "C" void __sanitizer_symbolize_pc(void* pc, const char* fmt, char* out_buf, size_t out_buf_size);
 
 namespace sim {
 
@@ -270,7 +272,10 @@ void logf(const char* fmt, ...) {
 void count(const char* name, uint64_t n) { g.counters[name] += n; }
 void mark_nontrivial() { g.nontrivial = true; }
 void add_steps(uint64_t n) { g.steps += n; }
+void breadcrumb(const char* kv) { char b[64]; snprintf(b, sizeof b, "B %llu ", (unsigned long long)g.run_index); emit_result_line(std::string(b) + kv + "\n"); }
+void add_subruns(uint64_t n, uint64_t distinct) { count("subruns.total", n); count("subruns.distinct_nontrivial", distinct); }
 
+void emit_result_line(const std::string& line);
 static void write_all(int fd, const std::string& s) {
   const char* p = s.data(); size_t n = s.size();
   while (n) { ssize_t w = ::write(fd, p, n); if (w < 0) { if (errno == EINTR) continue; break; } p += w; n -= size_t(w); }
@@ -341,11 +346,36 @@ bool fault_fires(uint8_t kind, int32_t* arg_out) {
     logf("fault %s op=%zu ord=%u", fault_kind_name(kind), t_op.index, ord);
     char name[64]; snprintf(name, sizeof name, "fault.fired.%s", fault_kind_name(kind));
     count(name);
+    if (g.fault_stacks.size() < 64) {
+      void* pcs[24];
+      int n = backtrace(pcs, 24);
+      g.fault_stacks.emplace_back(pcs, pcs + (n > 0 ? n : 0));
+    }
+    else g.fault_stacks_overflow = true;
 #if defined(SIM_FLAVOUR_ASAN) || defined(SIM_FLAVOUR_DBG) || defined(SIM_FLAVOUR_TSAN)
     if (g.verbose) __sanitizer_print_stack_trace();
 #endif
   }
   return fire;
+}
+
+const std::vector<std::vector<void*>>& fired_fault_stacks() { return g.fault_stacks; }
+bool fired_fault_stacks_overflowed() { return g.fault_stacks_overflow; }
+
+bool stack_has_function(const std::vector<void*>& pcs, const char* needle) {
+#if defined(SIM_FLAVOUR_ASAN) || defined(SIM_FLAVOUR_DBG) || defined(SIM_FLAVOUR_TSAN)
+  char buf[4096];
+  for (void* pc : pcs) {
+    memset(buf, 0, sizeof buf);
+    // pc is a return address: symbolise the call instruction itself
+    __sanitizer_symbolize_pc(static_cast<char*>(pc) - 1, "%f", buf, sizeof buf - 2);
+    // the buffer holds one NUL separated entry per inlined frame, terminated by an empty string
+    for (const char* p = buf; *p; p += strlen(p) + 1) if (strstr(p, needle)) return true;
+  }
+#else
+  (void)pcs; (void)needle;
+#endif
+  return false;
 }
 
 uint32_t op_request_count(uint8_t kind) { return t_op.counts[kind]; }
@@ -367,6 +397,8 @@ void begin_run(const Plan& plan) {
   memset(g.prob_den, 0, sizeof g.prob_den);
   for (auto& v : g.fail_after) v = -1;
   g.fault_rng = stream(plan.seed, "fault");
+  g.fault_stacks.clear();
+  g.fault_stacks_overflow = false;
   g.knob_arena_block = 0;
   g.knob_code_buffer = 0;
   t_op.faults.clear(); t_op.active = false; t_op.index = 0;
